@@ -980,8 +980,12 @@ func (n *nmEnv) nodeIndex(key []byte) int {
 			return i
 		}
 	}
-	return -2
+	return nmNoNode
 }
+
+// nmNoNode: the key belongs to no node of the pool (must not collide with the
+// negative signer indices -1..-4 of the committee principals).
+const nmNoNode = -100
 
 // expectCand says whether the property expects the candidate operation to
 // succeed and applies its effect to the reference set.
@@ -1072,6 +1076,7 @@ type nmMon struct {
 	w2         int64 // ghost window of the per-epoch lists
 	cur        int64 // ring index, from the raw storage read of the previous step
 	lastResize int
+	leaky      bool // a jump tick happened: lists outside the window are not checked against "empty"
 	putNil     int
 	sig        strings.Builder
 	flags      map[string]bool
@@ -1195,7 +1200,19 @@ func (m *nmMon) step(h *nmHistory, from, to int) {
 					m.violate(h, fmt.Sprintf("%s: fan-out/notification stream %s, expected %s", op.String(), gListOf(res.events).key(), exp.key()))
 				}
 				if m.prop == "C08" && op.Epoch != m.epoch+1 {
-					m.flags["jump"] = true // outside C08's quantifier; reference history not maintained
+					// a jump tick (outside C08's quantifier, used by the corpus to cross the byte
+					// boundaries of the four-byte epoch key): the legacy ring counts TICKS, so the
+					// reference maps are re-keyed to keep "d ticks ago" = "epoch - d"; the
+					// per-epoch lists of the epochs before the jump are no longer cleaned up
+					// (leaky: compared with the model only), the list window restarts
+					shift := op.Epoch - (m.epoch + 1)
+					re := map[int64]gv{}
+					for k, v := range m.pubL {
+						re[k+shift] = v
+					}
+					m.pubL = re
+					m.w2 = 0
+					m.leaky = true
 				}
 				m.epoch = op.Epoch
 				m.block = int64(res.height)
@@ -1332,6 +1349,9 @@ func (m *nmMon) step(h *nmHistory, from, to int) {
 			if m.prop != "C08" && !(e > m.epoch-m.w2 && e <= m.epoch) {
 				// with epoch jumps (C06/C07 histories) lists of skipped-over epochs are
 				// not cleaned up: outside C08's quantifier, compared with the model only
+				continue
+			}
+			if m.leaky && !(e > m.epoch-m.w2 && e <= m.epoch) {
 				continue
 			}
 			if e < 0 && m.epoch >= 128 {
@@ -1510,7 +1530,11 @@ func (g *nmGen) sig(node int, needNode bool) []int {
 		}
 		return []int{r.Intn(nn)}
 	case 1:
-		return []int{-1, (node + 1 + r.Intn(nn-1) + nn) % nn} // another node's witness
+		o := node
+		if o < 0 {
+			o = 0
+		}
+		return []int{-1, (o + 1 + r.Intn(nn-1)) % nn} // another node's witness
 	case 2:
 		return []int{-1} // node missing (fine for IR methods)
 	}
@@ -2058,6 +2082,9 @@ func nmCorpus(prop string, n *nmEnv) [][]nmOp {
 			},
 			reannounce(),
 			twins(),
+			// byte boundaries of the four-byte epoch key
+			{addN(0, "a"), {Kind: "addPeerIR", Info: n.info(1, 1, 2), Signers: al}, tick(255), addN(1, "b"), tick(256), tick(257),
+				{Kind: "updateStateIR", State: 3, Key: k0, Signers: al}, tick(65535), tick(65536), addN(2, "c"), tick(65537), tick(1 << 24), tick(1<<24 + 1)},
 			// LAST: run on a 3-key committee
 			cat([]nmOp{by(nmOp{Kind: "addPeer", Info: n.info(0, 1, 4)}, -2, 0), by(nmOp{Kind: "addPeer", Info: n.info(0, 1, 4)}, -3, 0),
 				by(nmOp{Kind: "addPeer", Info: n.info(0, 1, 4)}, -1, 0), by(addN(1, "b"), -2, 1), by(addN(1, "b"), -4, 1), addN(1, "b")},
@@ -2094,6 +2121,10 @@ func nmCorpus(prop string, n *nmEnv) [][]nmOp {
 			cat(ticks(1, 11), []nmOp{resize(12), resize(9)}, ticks(12, 14), []nmOp{resize(11), resize(12), resize(3)}, ticks(15, 16)),
 			// the same on a ring that has not wrapped yet: up-up, up-down, down-up with 0/1 ticks between
 			cat(ticks(1, 4), []nmOp{resize(11), resize(12)}, ticks(5, 5), []nmOp{resize(4), resize(6)}, ticks(6, 7), []nmOp{resize(5)}, ticks(8, 9)),
+			// byte boundaries of the four-byte epoch key: jump to 255, +1 ticks over 256/257 with
+			// structured nodes, a resize after epoch 256, jumps to 65535 (+1, +2) and 2^24 (+1)
+			cat(ticks(1, 2), ticks(255, 258), []nmOp{resize(3)}, ticks(259, 261), ticks(65535, 65537), []nmOp{resize(5)},
+				ticks(1<<24, 1<<24+2), ticks(1<<24+255, 1<<24+257)),
 			// empty candidate set after non-empty maps, ring of 2: the reused slots must hold the empty map
 			cat(ticks(1, 2), []nmOp{resize(2), {Kind: "deleteNode", Key: n.nodes[1%len(n.nodes)].pub, Signers: al},
 				{Kind: "deleteNode", Key: n.nodes[2%len(n.nodes)].pub, Signers: al}, tick(3), tick(4), tick(5)}),
